@@ -89,7 +89,7 @@ def main() -> int:
         rep.violation(f"{accepted} pairs accepted but {len(all_boards)} boards registered", key="accept-count")
     # ---- project round trip
     n_proj = 1200 if t == "quick" else 6000
-    ports = ["COM3", "/dev/ttyACM0", "/dev/tty.usbmodem-14101", "COM=7", "a:b", "x;y", "p#q", "100%", "%(board)s", "${env.port}",
+    ports = ["COM3", "COM10", "COM27", "COM100", "com12", "~/dev/tty", "/dev/ttyACM0", "/dev/tty.usbmodem-14101", "COM=7", "a:b", "x;y", "p#q", "100%", "%(board)s", "${env.port}",
              "[env]", "back\\slash", "sp ace", "ünï", "端口", "a=b=c", "--flag", "C:\\dev\\com1", "'q'", '"dq"']
     libs_pool = ["Servo", "LiquidCrystal", "LiquidCrystal_I2C", "", None, "Adafruit NeoPixel@^1.0", "owner/Lib", "Servo"]
     sources = ["void setup(){}\nvoid loop(){}\n", "", "// ünïcode 端口 \U0001F600\n", "line1\r\nline2\r\n", "no newline at end",
@@ -190,6 +190,28 @@ def main() -> int:
                               key="ini:" + problems[0].split("=")[0])
             if k < 3:
                 rep.sample({"case": case, "ini": (proj / "platformio.ini").read_text()})
+        # same project directory written twice: the second source must replace the first even when the ini is identical
+        twice = base / "twice"
+        pio.write_project(twice, "// first\n", "COM3", platform="atmelavr", board="uno", lib_deps=["Servo"])
+        pio.write_project(twice, "// second\n", "COM3", platform="atmelavr", board="uno", lib_deps=["Servo"])
+        rep.evaluations += 1
+        if (twice / "src" / "main.cpp").read_text() != "// second\n":
+            rep.violation("second write_project into the same directory left the previous src/main.cpp in place", key="stale-main")
+        # validation is a function of the pair only: a valid use of a board must not make later invalid pairs pass
+        for plat_ok, board_ok, plat_bad in (("atmelmegaavr", "nano_every", "atmelavr"), ("atmelavr", "uno", "mystery"), ("atmelavr", "uno", "atmelmegaavr")):
+            pio.validate_platform_board(plat_ok, board_ok)
+            pio.write_project(base / "hist_ok", "x", "COM3", platform=plat_ok, board=board_ok)
+            rep.evaluations += 1
+            try:
+                pio.write_project(base / "hist_bad", "x", "COM3", platform=plat_bad, board=board_ok)
+                rep.violation(f"write_project accepted {plat_bad}/{board_ok} after a valid use of {plat_ok}/{board_ok} in the same process", key="validation-history")
+            except ValueError:
+                pass
+            try:
+                pio.validate_platform_board(plat_bad, board_ok)
+                rep.violation(f"validate_platform_board accepted {plat_bad}/{board_ok} after a valid use of the board", key="validation-history")
+            except ValueError:
+                pass
         # every registered board through the env-name sanitiser
         for b in all_boards:
             name = pio._sanitize_env_name(b)
